@@ -34,18 +34,25 @@ func NewDocument() *Document {
 	}
 }
 
-// AddPage appends a page to the document and assigns its page number (1-indexed).
+// AddPage appends a page to the document. A page without a number is assigned
+// the next 1-indexed page number; a number already set by the caller (for
+// example the source page number when only some pages are extracted) is kept.
 func (d *Document) AddPage(page *Page) {
-	page.Number = len(d.Pages) + 1
+	if page.Number <= 0 {
+		page.Number = len(d.Pages) + 1
+	}
 	d.Pages = append(d.Pages, page)
 }
 
-// GetPage returns a page by its 1-indexed page number, or nil if out of range.
+// GetPage returns the page with the given 1-indexed page number, or nil if the
+// document has no such page.
 func (d *Document) GetPage(number int) *Page {
-	if number < 1 || number > len(d.Pages) {
-		return nil
+	for _, page := range d.Pages {
+		if page.Number == number {
+			return page
+		}
 	}
-	return d.Pages[number-1]
+	return nil
 }
 
 // PageCount returns the total number of pages in the document.
